@@ -943,13 +943,14 @@ func compileReturnStmt(context *funcContext, stmt *ast.ReturnStmt) { // {{{
 				return
 			}
 		case *ast.FuncCallExpr:
-			if ex.AdjustRet { // return (func())
+			if ex.AdjustRet { // return (func()): exactly one value, whatever the call left above it
 				reg += compileExpr(context, reg, ex, ecnone(0))
+				code.AddABC(OP_RETURN, a, 2, 0, sline(stmt))
 			} else {
 				reg += compileExpr(context, reg, ex, ecnone(-2))
 				code.SetOpCode(code.LastPC(), OP_TAILCALL)
+				code.AddABC(OP_RETURN, a, 0, 0, sline(stmt))
 			}
-			code.AddABC(OP_RETURN, a, 0, 0, sline(stmt))
 			return
 		}
 	}
